@@ -346,7 +346,7 @@ def b_dict(I, args, kw):
                 it = I.force(it)
                 k = I.pyconst(I.force(it.items[0]))
                 if k is I_MISSING():
-                    raise Unsupported("dict() from pairs with symbolic keys")
+                    k = I.force(it.items[0])      # symbolic key (identified by its term)
                 d = d.set(k, it.items[1])
     for k, x in kw.items():
         d = d.set(k, x)
@@ -594,6 +594,23 @@ def str_method(I, v, name, args, kw):
         r = f(s)
         I.ctx.assume(z3.Length(r) <= z3.Length(s))
         return VStr(r, v.is_bytes)
+    if name == "format" and _lit(v) and not kw:
+        fmt = v.t.as_string()
+        pieces = fmt.split("{}")
+        if len(pieces) == len(args) + 1 and "{" not in "".join(pieces) and "}" not in "".join(pieces):
+            out = []
+            okf = True
+            for i, pc in enumerate(pieces):
+                if pc:
+                    out.append(z3.StringVal(pc))
+                if i < len(args):
+                    a = args[i] if isinstance(args[i], VUnion) else I.force(args[i])
+                    if isinstance(a, VUnion) or a.tag not in ("str", "int", "bool", "none", "real"):
+                        okf = False
+                        break
+                    out.append(b_str(I, [a], {}).t)
+            if okf:
+                return VStr(z3.Concat(*out) if len(out) > 1 else (out[0] if out else z3.StringVal("")))
     if name == "format":
         # deterministic uninterpreted function of the format string and the (stringified) arguments
         parts = []
@@ -619,6 +636,20 @@ def str_method(I, v, name, args, kw):
         return VBool(f(s))
     if name in ("decode", "encode"):
         return VStr(s, name == "encode")
+    if name == "split" and len(args) == 1 and _lit(I.force(args[0])):
+        # split on a literal separator: case split on the number of occurrences (0, 1, more)
+        sep = I.force(args[0]).t
+        i1 = z3.IndexOf(s, sep, 0)
+        if I.ctx.branch(i1 < 0):
+            return I.new_list([VStr(s, v.is_bytes)])
+        ln = z3.Length(sep)
+        rest = z3.SubString(s, i1 + ln, z3.Length(s) - i1 - ln)
+        first = z3.SubString(s, 0, i1)
+        if I.ctx.branch(z3.IndexOf(rest, sep, 0) < 0):
+            return I.new_list([VStr(first, v.is_bytes), VStr(rest, v.is_bytes)])
+        # three or more parts: only the count matters to the callers we verify (tuple unpacking fails)
+        return I.new_list([VStr(first, v.is_bytes), VStr(z3.String(I.fresh_name("part")), v.is_bytes),
+                           VStr(z3.String(I.fresh_name("part")), v.is_bytes)])
     if name == "split":
         raise Unsupported("str.split needs a contract-level model")
     if name == "count":
@@ -872,7 +903,9 @@ def setitem(I, base, idx, val):
         if isinstance(c, DConc):
             k = I.pyconst(idx)
             if k is MISSING:
-                raise Unsupported("concrete dict store with symbolic key")
+                if c.get(idx) is None and c.entries:
+                    raise Unsupported("concrete dict store with a symbolic key that is not syntactically one of its keys")
+                k = idx
             I.set_container(base.ref, c.set(k, val))
             return
         kt = to_term(idx, c.kshape)
